@@ -76,6 +76,31 @@ theorem fragment_outside (res : Rat) (nch : Nat) (prog : List Node) (h : inFragm
     simp only [h1, h2, beq_self_eq_true, Bool.and_self, Bool.not_true, Bool.false_or, beq_iff_eq] at this
     exact h3 this
 
+mutual
+theorem wf_factorDepth (nch : Nat) : (n : Node) → ∀ d, wellFormed nch d n = true → factorDepthOK d n = true
+  | .hold _ _ _, d, h => by
+    simp only [wellFormed, Bool.and_eq_true] at h
+    simpa only [factorDepthOK] using h.2
+  | .rep body _, d, h => by
+    simp only [wellFormed, Bool.and_eq_true] at h
+    simpa only [factorDepthOK] using wf_factorDepthL nch body d h.2
+  | .iter body _, d, h => by
+    simp only [wellFormed, Bool.and_eq_true] at h
+    simpa only [factorDepthOK] using wf_factorDepthL nch body (d + 1) h.2
+theorem wf_factorDepthL (nch : Nat) : (ns : List Node) → ∀ d, wellFormedList nch d ns = true →
+    factorDepthOKList d ns = true
+  | [], _, _ => rfl
+  | n :: ns, d, h => by
+    simp only [wellFormedList, Bool.and_eq_true] at h
+    simp only [factorDepthOKList, Bool.and_eq_true]
+    exact ⟨wf_factorDepth nch n d h.1, wf_factorDepthL nch ns d h.2⟩
+end
+
+theorem fragment_not_indexreuse (res : Rat) (nch : Nat) (prog : List Node) (h : inFragment res nch prog = true) :
+    inIndexReuse prog = false := by
+  simp only [inFragment, Bool.and_eq_true] at h
+  simp [inIndexReuse, wf_factorDepthL nch prog 0 h.1.1.2]
+
 /-- every builder-shaped program without repetition nodes and with faithful, separated keys is in the fragment -/
 theorem norep_in_fragment (res : Rat) (nch : Nat) (prog : List Node) (hn : hasRepList prog = false)
     (hw : wellFormedList nch 0 prog = true) (hk : keyInj res (touchesList prog) = true)
